@@ -88,10 +88,11 @@ def gen_network(rng, profile):
         egr[rng.randrange(ns)] = (rng.choice([0, 30, 100, 240, 1300]), rng.randint(0, 300))
     scen = [dict(services=list(range(nsv)), onlyLines=[], exceptLines=[], onlyAgencies=[], exceptAgencies=[], onlyModes=[], exceptModes=[])]
     for _ in range(rng.randint(0, 3)):
-        s = dict(services=sorted(rng.sample(range(nsv), rng.randint(1, nsv))), onlyLines=[], exceptLines=[], onlyAgencies=[], exceptAgencies=[], onlyModes=[], exceptModes=[])
+        s = dict(services=rng.sample(range(nsv), rng.randint(1, nsv)), onlyLines=[], exceptLines=[], onlyAgencies=[], exceptAgencies=[], onlyModes=[], exceptModes=[])
         for key, dom in (("onlyLines", nl), ("exceptLines", nl), ("onlyAgencies", nag), ("exceptAgencies", nag), ("onlyModes", 3), ("exceptModes", 3)):
             if rng.random() < 0.25:
-                s[key] = sorted(rng.sample(range(dom), rng.randint(1, max(1, dom - 1))))
+                # any order (the code must not rely on the lists being sorted)
+                s[key] = rng.sample(range(dom), rng.randint(1, max(1, dom - 1)))
         scen.append(s)
     return dict(ns=ns, nag=nag, nsv=nsv, foot=foot, lines=lines, paths=paths, trips=trips, scenarios=scen,
                 acc=[(s, t, x) for s, (t, x) in acc.items()], egr=[(s, t, x) for s, (t, x) in egr.items()],
@@ -180,11 +181,56 @@ def gen_parallel(rng):
                 egr=[(d_, rng.choice([0, 60]), 4)], cacheall=0, profile="parallel", base_hour=0)
 
 
+def gen_closer(rng):
+    """a trip with two candidate alighting stops P (earlier, shorter onward walk) and Q (later, longer
+    walk): exercises the rule that moves a trip's exit to a "closer" stop (reverse_calculation.cpp:89-105)"""
+    S, P, Q, R, R2, D, X = 0, 1, 2, 3, 4, 5, 6
+    ns = 7
+    foot = {(s, s): (0, 0) for s in range(ns)}
+    wP = rng.choice([30, 60, 90, 120, 150]); wQ = wP + rng.choice([10, 30, 60, 150])
+    same_target = rng.random() < 0.5
+    foot[(P, R)] = (wP, 40); foot[(Q, R if same_target else R2)] = (wQ, 90)
+    if rng.random() < 0.3: foot[(P, R2)] = (wP + rng.choice([0, 20, 400]), 50)
+    if rng.random() < 0.2: foot[(Q, D)] = (rng.choice([60, 300]), 70)
+    paths, trips = [], []
+    ids = list(range(1, 40)); rng.shuffle(ids)
+
+    def add(stops, times, cb=None, cu=None):
+        paths.append((len(paths), stops, [rng.randint(1, 50) for _ in stops[:-1]]))
+        arr = list(times); dw = rng.choice([0, 0, 30]); dep = [t + dw for t in times]
+        trips.append((len(paths) - 1, 0, ids.pop(), arr, dep, list(cb or [1] * len(stops)), list(cu or [1] * len(stops))))
+    t0 = 3000 + 60 * rng.randint(0, 5)
+    aP = t0 + rng.choice([120, 300]); aQ = aP + rng.choice([60, 120, 300])
+    cuA = [1, 1, 1]
+    if rng.random() < 0.15: cuA[rng.choice([1, 2])] = 0
+    stopsA = [S, P, Q]
+    add(stopsA, [t0, aP, aQ], cu=cuA)
+    if rng.random() < 0.4: add(stopsA, [t0 + 600, aP + 600, aQ + 600], cu=cuA)
+    # onward trip B from R: around the moment a walker from P would just make / just miss it
+    mwc = rng.choice([0, 30, 60, 180])
+    depB = aP + wP + mwc + rng.choice([-120, -60, -30, -1, 0, 1, 30, 60, 200])
+    depB = max(depB, aP + rng.choice([0, 30, 2 * mwc]))
+    cbB = [1, 1] if rng.random() < .85 else [0, 1]
+    add([R, D], [depB, depB + rng.choice([120, 300])], cb=cbB)
+    # a later onward trip that is certainly catchable from Q
+    tgt = R if same_target else R2
+    depB2 = aQ + wQ + 180 + rng.choice([0, 60, 300])
+    add([tgt, D], [depB2, depB2 + rng.choice([120, 300])])
+    if rng.random() < 0.3: add([R, X, D], [depB + 400, depB + 500, depB + 700])
+    lines = [(0, 0) for _ in paths]
+    scen = [dict(services=[0], onlyLines=[], exceptLines=[], onlyAgencies=[], exceptAgencies=[], onlyModes=[], exceptModes=[])]
+    return dict(ns=ns, nag=1, nsv=1, foot=[(a, b, t, x) for (a, b), (t, x) in foot.items()], lines=lines, paths=paths,
+                trips=trips, scenarios=scen, acc=[(S, rng.choice([0, 60]), 5)], egr=[(D, rng.choice([0, 60]), 7)],
+                cacheall=0, profile="closer", base_hour=0, mw_hint=mwc, t_hint=(t0, depB2 + 1000))
+
+
 def gen_dataset(rng, stream):
     if stream == "tmpl":
         return gen_tmpl(rng)
     if stream == "parallel":
         return gen_parallel(rng)
+    if stream == "closer":
+        return gen_closer(rng)
     return gen_network(rng, stream)
 
 
@@ -202,13 +248,20 @@ def gen_query(rng, d, forward=None, cap=None, alt=False, limits=True):
         t = rng.choice([9000, 12000, 2000, 2700])
     elif prof == "parallel":
         t = rng.choice([2500, 3000, 3600, 4200, 7000, 9000])
+    elif prof == "closer":
+        lo, hi = d["t_hint"]
+        t = rng.choice([lo - 600, lo - 60, hi, hi + 3000])
     else:
         t = rng.choice([0, 1800, 2900, 3600, 4000, 5000, 7200, 9000]) + rng.choice([0, 0, 1, 59, 600])
     tt = rng.choice([0, 1]) if forward is None else (0 if forward else 1)
     if prof.startswith("tmpl") and forward is None:
         tt = 1 if t >= 9000 else 0
+    if prof == "closer" and forward is None:
+        tt = 1 if t >= d["t_hint"][1] else 0
     q = dict(scenario=rng.randrange(len(d["scenarios"])), time_of_trip=t, time_type=tt,
              min_waiting_time=rng.choice([0, 60, 180]))
+    if prof == "closer" and rng.random() < 0.7:
+        q["min_waiting_time"] = d["mw_hint"]
     if cap is None:
         cap = rng.choice([0, 0, 0, 120, 300, 900, None])
     if cap is not None:
